@@ -153,7 +153,7 @@ static void build_state_alphabet(void) {
 /* =================================================================== C10 */
 /* interface 0 = responder A, interface 1 = responder B, one core instance serves both (as in the daemons) */
 static struct m10 { uint8_t qn; uint8_t q[3][32]; uint8_t delivered; } M10;   /* delivered: bit (srcidx*2+kind) */
-enum { X_DISC_A, X_DISC_A_BR, X_DISC_B, X_DELIVER, X_HELLO_B, X_PROBE_PEER_B, X_QUERY_B, X_QUERY_B_BR, X_RESET_B, X_EMIT0 };
+enum { X_DISC_A, X_DISC_A_BR, X_DISC_B, X_DELIVER, X_HELLO_B, X_PROBE_PEER_B, X_QUERY_B, X_QUERY_B_BR, X_RESET_B, X_OTHER_EMITTER_B, X_EMIT0 };
 static int NEMIT; static struct { uint8_t n; uint8_t d[2]; } EM[512];     /* descriptor code: kind | pause<<1 | dstB<<2 | srcA<<3 */
 static const uint8_t *addrA(void) { return W.iface[0].mac; }
 static const uint8_t *addrB(void) { return W.iface[1].mac; }
@@ -167,7 +167,7 @@ static int towardsB(int ev) { int n = 0; for (int i = 0; i < EM[ev - X_EMIT0].n;
 
 static void x_name(int ev, char *buf, size_t cap) {
     static const char *n[] = {"Discover(M1)->A", "Discover(M1 via BR)->A", "Discover(M1)->B", "deliver oldest in-flight frame to B", "Hello(PEER)->B", "Probe(for PEER)->B",
-                              "Query(M1)->B", "Query(M1 via BR)->B", "Reset->B"};
+                              "Query(M1)->B", "Query(M1 via BR)->B", "Reset->B", "Train(from responder C, Ethernet source S0 as ordered by the mapper)->B"};
     if (ev < X_EMIT0) { snprintf(buf, cap, "%s", n[ev]); return; }
     size_t o = (size_t)snprintf(buf, cap, "Emit(M1)->A[");
     for (int i = 0; i < EM[ev - X_EMIT0].n; i++) {
@@ -216,6 +216,8 @@ static void x_apply(int ev) {
                 if (!found) vf_violation("peer-does-not-report-emitted-probe", "responder A emitted a %s towards B (Ethernet source %s), it was delivered unmodified to B, but B's QueryResp (%u descriptors) has no entry with A as real source for it", (M10.delivered & (2u << (srcidx * 2))) ? "Probe" : "Train", srcidx ? "A" : "S0", cnt);
             }
             M10.delivered = 0; break; }
+        case X_OTHER_EMITTER_B:     /* unrelated traffic: a third responder emits towards B with the same spoofed Ethernet source */
+            fb_base(f, addrB(), vf_station[ST_S0], 0, 0x03, addrB(), vf_station[ST_PEER], 0); deliver_to(1, f, 32); break;
         case X_RESET_B: { pev e = ev_reset(0, ST_M1); len = pev_build(&e, 1, f); deliver_to(1, f, len); M10.delivered = 0; break; }
         default: {
             fb_desc d[2]; int n = EM[ev - X_EMIT0].n;
